@@ -30,6 +30,8 @@ FAMILIES = {
     "cte2": dict(seed=123, n=1500, gen="Shapes2", opts={"only_shapes": ["cte_multi", "cte_semi"]}),
     "setop3": dict(seed=124, n=1500, gen="Shapes2", opts={"only_shapes": ["setop_chain"]}),
     "aggwide": dict(seed=125, n=1000, gen="Shapes2", opts={"only_shapes": ["agg_wide"]}),
+    "noalias": dict(seed=126, n=2500, opts={**OFF, "joins": False, "group": True, "group_p": 0.5, "having": True, "alias_p": 0.0, "tables": 1, "max_rows": 8,
+                                            "const_atoms": False, "order_p": 0.5, "nonnull_col_p": 0.5}),
     "cte": dict(seed=108, n=2000, opts={**OFF, "cte": True, "derived": True, "cte_p": 1.0, "boolops": False, "group": True}),
 }
 
